@@ -1,9 +1,8 @@
 CONSTANTS
   Dev = {"D_stream_response_timeout_ignored"}
   MaxReq = 1
-  RT = 1
-  DefRT = 2
-  IdleCfg = 1
+  TickMs = 10000
+  StConfs <- St_1_1
   RqCap = 8
   ChanCap = 8
   MaxFrames = 0
@@ -18,4 +17,5 @@ CONSTANTS
   Frames <- MCFrames
 SPECIFICATION Spec
 INVARIANT TimerArmed
+INVARIANT Configured
 CHECK_DEADLOCK FALSE
